@@ -7,10 +7,11 @@ set -u
 export VROOT="${VROOT:-/verif}"
 id="$1"; shift
 checks="$id $*"
-src=/tmp/seed/out/$id
+src=${SEEDSRC:-/tmp/seed/out}/$id
+tag="${SEEDTAG:-}"
 export GOFLAGS=-mod=mod GOPROXY=off GOSUMDB=off GOTOOLCHAIN=local
 [ -s "$src/patch.diff" ] && [ -s "$src/demo_test.go" ] || { echo "missing deliverables in $src"; exit 3; }
-wt=/tmp/seedeval-$id
+wt=/tmp/seedeval-$id$tag
 git -C /repo worktree remove --force "$wt" 2>/dev/null
 git -C /repo worktree add -q --detach "$wt" HEAD || exit 3
 cleanup() { git -C /repo worktree remove --force "$wt" 2>/dev/null; }
@@ -39,20 +40,20 @@ if [ $ok -eq 1 ]; then
   done
   rm -f $VROOT/replays/*.json
 fi
-mkdir -p $VROOT/seeded/$id
-cp "$src/patch.diff" "$src/demo_test.go" $VROOT/seeded/$id/
-[ -f "$src/README.md" ] && cp "$src/README.md" $VROOT/seeded/$id/AUTHOR_NOTES.md
-python3 - "$id" "$ok" "$build" "$suite" "$base" "$mut" <<PY
+mkdir -p $VROOT/seeded/$id$tag
+cp "$src/patch.diff" "$src/demo_test.go" $VROOT/seeded/$id$tag/
+[ -f "$src/README.md" ] && cp "$src/README.md" $VROOT/seeded/$id$tag/AUTHOR_NOTES.md
+python3 - "$id" "$ok" "$build" "$suite" "$base" "$mut" "$tag" <<PY
 import json,sys,os
-id,ok,build,suite,base,mut=sys.argv[1:7]
+id,ok,build,suite,base,mut=sys.argv[1:7]; tag=sys.argv[7] if len(sys.argv)>7 else ''
 meta={"property":id,"confirmed":ok=="1","compiles":build=="0","suite_green":suite=="0","demo_passes_without_change":base=="0","demo_fails_with_change":mut!="0",
  "what_i_ran":["git worktree add (scratch), demo on clean tree, git apply patch.diff, go build ./..., go test -run TestSeeded%s, go test ./... (suite)"%id,"VERIF_REPO=<scratch worktree with patch.diff applied> ./check <id> quick"],
  "checks":{}}
 for line in open('/dev/stdin') if False else []: pass
-json.dump(meta,open('$VROOT/seeded/%s/meta.json'%id,'w'),indent=1)
+json.dump(meta,open('$VROOT/seeded/%s%s/meta.json'%(id,tag),'w'),indent=1)
 PY
 for c in $checks; do
-  [ -n "${verdict[$c]:-}" ] && python3 - "$id" "$c" "${verdict[$c]}" <<'PY'
+  [ -n "${verdict[$c]:-}" ] && python3 - "$id$tag" "$c" "${verdict[$c]}" <<'PY'
 import json,sys
 id,c,v=sys.argv[1:4]
 import os
@@ -60,4 +61,4 @@ p=os.environ.get('VROOT','/verif')+'/seeded/%s/meta.json'%id
 m=json.load(open(p)); m['checks'][c]=v; json.dump(m,open(p,'w'),indent=1)
 PY
 done
-cat $VROOT/seeded/$id/meta.json | head -30
+cat $VROOT/seeded/$id$tag/meta.json | head -30
